@@ -192,6 +192,11 @@ func init() {
 			e.fr.val[x] = e.define("pext", "String", e.pathExt(a[0]))
 			return true
 		},
+		"path/filepath.ToSlash": func(e *enc, x *ssa.Call, a []Term) bool {
+			e.assumps["the path separator is '/' (filepath.ToSlash is the identity)"] = true
+			e.fr.val[x] = a[0]
+			return true
+		},
 		"path/filepath.FromSlash": func(e *enc, x *ssa.Call, a []Term) bool {
 			e.assumps["the path separator is '/' (filepath.FromSlash is the identity)"] = true
 			e.fr.val[x] = a[0]
